@@ -512,7 +512,7 @@ func RunCase(p producer, ops []operation) (fs []core.Finding, steps int) {
 				var incs []ref.Inc
 				pan := core.Guard(func() {
 					if t.typed {
-						got = typedView(t.n)
+						got, incs = typedViewIncs(t.n)
 					} else {
 						got, incs = ref.Observe(t.n)
 					}
